@@ -78,6 +78,18 @@ pub fn size_case(family: &str, n: usize) -> Case {
             }
             inputs = vec![];
         }
+        "lexrules-mixed" => {
+            // two of three rules are skip rules: the rules are what is numbered, not the names
+            text.push_str("%%\n");
+            for i in 0..n {
+                if i % 3 == 0 {
+                    text.push_str(&format!("x{i}y 'T{i}'\n"));
+                } else {
+                    text.push_str(&format!("x{i}y ;\n"));
+                }
+            }
+            inputs = vec![];
+        }
         _ => {}
     }
     Case {
@@ -304,7 +316,7 @@ impl Prop for C20 {
         let mut ch = Choices::new(choices);
         if ch.chance(1, 8) {
             // random size near the u8 boundary
-            let fam = *ch.choose(&["rules", "tokens", "prods", "symbols", "states", "lexrules"]);
+            let fam = *ch.choose(&["rules", "tokens", "prods", "symbols", "states", "lexrules", "lexrules-mixed"]);
             let n = 240 + ch.pick(30);
             return serde_json::to_value(size_case(fam, n)).unwrap();
         }
@@ -327,13 +339,13 @@ impl Prop for C20 {
     }
     fn extra_cases(&self, tier: Tier, _seed: u64) -> Vec<Value> {
         let mut v = vec![];
-        for fam in ["rules", "tokens", "prods", "symbols", "states", "lexrules"] {
+        for fam in ["rules", "tokens", "prods", "symbols", "states", "lexrules", "lexrules-mixed"] {
             for n in 250..=260 {
                 v.push(serde_json::to_value(size_case(fam, n)).unwrap());
             }
         }
         // u16 boundary, grammar-level counts
-        let fams: &[&str] = tier.pick(&["tokens"][..], &["tokens", "rules", "prods", "lexrules"][..]);
+        let fams: &[&str] = tier.pick(&["tokens"][..], &["tokens", "rules", "prods", "lexrules", "lexrules-mixed"][..]);
         for fam in fams {
             for n in tier.pick(65534..=65536, 65532..=65538) {
                 v.push(serde_json::to_value(size_case(fam, n)).unwrap());
@@ -342,7 +354,7 @@ impl Prop for C20 {
         v
     }
     fn rule(&self) -> String {
-        "Size-boundary families (number of rules, tokens, productions, symbols in one production, LR states, lexer rules) at 250..260 (and random 240..269) for u8 and at 65534..65536 (thorough: 65532..65538, four families) for u16, plus ordinary small grammars as C10 and (1/5) 'inflated' ones: a C10 grammar of any kind (Eco with implicit tokens included) with one or two dimensions blown up to 246..261 - a production whose stored length (tokens count twice with implicit tokens) is 249..261, optionally with a second production longer in the source but shorter when stored, or many rules / productions / tokens; each built with u8, u16 and u32. Oracle: per width the construction completes or panics; a panic is a clean refusal iff it is the documented one (its message says that StorageT is not big enough; a bare assertion failure is not); every completing width reports sizes equal to the number of indices its iterators yield and equal to the u32 build's sizes, has the same digest of every grammar/graph/table query (first up to the canonical breadth-first renaming of states, for a precise signature, then with the implementation's own state numbers) and the same parse results; if a width completes every wider width completes. Evaluation = one (grammar, width). Non-trivial: some count lies within 3 of 255 or 65535, or the grammar is an inflated one; distinct by hash(family,n) / hash(text).".into()
+        "Size-boundary families (number of rules, tokens, productions, symbols in one production, LR states, lexer rules - all named, or two of three being skip rules -) at 250..260 (and random 240..269) for u8 and at 65534..65536 (thorough: 65532..65538, four families) for u16, plus ordinary small grammars as C10 and (1/5) 'inflated' ones: a C10 grammar of any kind (Eco with implicit tokens included) with one or two dimensions blown up to 246..261 - a production whose stored length (tokens count twice with implicit tokens) is 249..261, optionally with a second production longer in the source but shorter when stored, or many rules / productions / tokens; each built with u8, u16 and u32. Oracle: per width the construction completes or panics; a panic is a clean refusal iff it is the documented one (its message says that StorageT is not big enough; a bare assertion failure is not); every completing width reports sizes equal to the number of indices its iterators yield and equal to the u32 build's sizes, has the same digest of every grammar/graph/table query (first up to the canonical breadth-first renaming of states, for a precise signature, then with the implementation's own state numbers) and the same parse results; if a width completes every wider width completes. Evaluation = one (grammar, width). Non-trivial: some count lies within 3 of 255 or 65535, or the grammar is an inflated one; distinct by hash(family,n) / hash(text).".into()
     }
     fn assumptions(&self) -> Vec<String> {
         vec![
@@ -350,14 +362,14 @@ impl Prop for C20 {
         ]
     }
     fn required_classes(&self, _tier: Tier) -> Vec<&'static str> {
-        vec!["u8:refused", "u8:ok", "u16:refused", "u16:ok", "u32:ok", "family:small", "family:inflated", "family:tokens", "family:states", "family:lexrules"]
+        vec!["u8:refused", "u8:ok", "u16:refused", "u16:ok", "u32:ok", "family:small", "family:inflated", "family:tokens", "family:states", "family:lexrules", "family:lexrules-mixed"]
     }
     fn evaluate(&self, case: &Value) -> Outcome {
         let case: Case = serde_json::from_value(case.clone()).unwrap();
         let mut o = Outcome::new();
         o.class(&format!("family:{}", case.family));
         let near = |x: usize| (x as i64 - 255).abs() <= 3 || (x as i64 - 65535).abs() <= 3;
-        if case.family == "lexrules" {
+        if case.family.starts_with("lexrules") {
             let r8 = lex_width!(u8, &case.text);
             let r16 = lex_width!(u16, &case.text);
             let r32 = lex_width!(u32, &case.text);
@@ -391,8 +403,8 @@ impl Prop for C20 {
                 }
             }
             if near(case.n) {
-                o.nontrivial.push(hash64(&format!("lexrules{}", case.n)));
-                o.sample = Some(serde_json::json!({"family": "lexrules", "n": case.n}));
+                o.nontrivial.push(hash64(&format!("{}{}", case.family, case.n)));
+                o.sample = Some(serde_json::json!({"family": case.family, "n": case.n}));
             }
             return o;
         }
